@@ -25,7 +25,7 @@
    * C06's actions (no skip) are images of the level's ([act6]); the two
      functions called do not read them.
    Definitions and lemmas (the statements are in props/C02_Compose.v). *)
-From NV Require Import Base Regex Generated C02_Levels VerifyCore C02_Model C02_Core C02_Proofs.
+From NV Require Import Base Regex Generated C02_Levels VerifyCore C02_Model C02_Core C02_Proofs C02_Struct.
 From NV Require C03_Model C03_Proofs C04_DN C04_Model C04_Proofs C05_Model C05_Proofs C06_Model C06_Proofs.
 Open Scope string_scope.
 Open Scope list_scope.
@@ -127,9 +127,11 @@ Definition Identity_matches (i : full_input) : Prop :=
        exists id v d, In id (f_identities i) /\ C04_Model.x509_value id = Some v /\
                       C04_DN.parse_distinguished_name v = C04_DN.DOk d /\ C04_Model.within d m.
 
-(* C05: the validator answered, and every certificate is OK or non-revokable *)
+(* C05: the validator answered with exactly one result per certificate of the chain (anything else
+   is a failed validation since fix d78db00, checkRevocationResults), and every certificate is OK or
+   non-revokable *)
 Definition Unrevoked (i : full_input) : Prop :=
-  exists rs, f_rev i = C05_Model.VRes rs /\
+  exists rs, f_rev i = C05_Model.VRes rs /\ List.length rs = List.length (f_chain i) /\
              Forall (fun r => r = C05_Model.ROK \/ r = C05_Model.RNonRevokable) rs.
 
 (* C06: no expiry or an expiry after now *)
@@ -142,10 +144,9 @@ Definition Timestamp_ok (i : full_input) : Prop :=
   /\ (f_sa i = false -> ~ C06_Model.Applies (in6 i) -> Forall (C06_Model.Valid_at (f_now i)) (certs6 i))
   /\ (f_sa i = false -> C06_Model.Applies (in6 i) -> C06_Model.Token_ok (in6 i)).
 
-(* the validator contract of C05 and the policy contract of C06 *)
-Definition contracts (i : full_input) : Prop :=
-  (forall rs, f_rev i = C05_Model.VRes rs -> List.length rs = List.length (f_chain i))
-  /\ C06_Model.wf (in6 i) = true.
+(* the policy contract of C06 (every trust store value has a separator). The former validator
+   contract of C05 (one result per certificate) is no longer assumed: the code checks it. *)
+Definition contracts (i : full_input) : Prop := C06_Model.wf (in6 i) = true.
 
 (* ---------- each fact, from the sub-model's theorem ---------- *)
 Lemma auth_pass_anchored i : auth_code (auth_class i) = 0%N -> Anchored i.
@@ -177,21 +178,27 @@ Proof.
     exists leaf, rest, m. repeat split; try assumption. exists id, v, d. tauto.
 Qed.
 
-Lemma rev_pass_unrevoked i :
-  (forall rs, f_rev i = C05_Model.VRes rs -> List.length rs = List.length (f_chain i)) ->
-  rev_passes i = true -> Unrevoked i.
+Lemma rev_passes_iff i : rev_passes i = true <-> Unrevoked i.
 Proof.
-  unfold rev_passes, rev_class, Unrevoked. intros LEN H.
+  unfold rev_passes, rev_class, Unrevoked.
   destruct (f_rev i) as [|rs] eqn:R.
-  - exfalso. unfold C05_Model.model, in5 in H. cbn in H. rewrite R in H. discriminate.
-  - exists rs. split; [reflexivity|].
-    assert (A : C05_Model.i_action (in5 i) <> C05_Model.Skip) by (cbn; discriminate).
+  - split.
+    + intros H. exfalso. unfold C05_Model.model, in5 in H. cbn in H. rewrite R in H. discriminate.
+    + intros (rs & E & _). discriminate.
+  - assert (A : C05_Model.i_action (in5 i) <> C05_Model.Skip) by (cbn; discriminate).
     assert (V : C05_Model.i_vout (in5 i) = C05_Model.VRes rs) by exact R.
-    assert (L : List.length rs = List.length (C05_Model.i_chain (in5 i))).
-    { cbn. unfold subjects_of. rewrite map_length. now apply LEN. }
-    apply (C05_Proofs.pass_iff (in5 i) rs A V L).
-    destruct (C05_Model.o_result (C05_Model.model (in5 i))) as [[]|]; try discriminate. reflexivity.
+    pose proof (C05_Proofs.pass_iff_total (in5 i) rs A V) as P.
+    assert (L : List.length (C05_Model.i_chain (in5 i)) = List.length (f_chain i))
+      by (cbn; unfold subjects_of; now rewrite map_length).
+    rewrite L in P. split.
+    + intros H. exists rs. split; [reflexivity|]. apply P.
+      destruct (C05_Model.o_result (C05_Model.model (in5 i))) as [[]|]; try discriminate. reflexivity.
+    + intros (rs' & E & LEN & OK). injection E as <-.
+      rewrite (proj2 P (conj LEN OK)). reflexivity.
 Qed.
+
+Lemma rev_pass_unrevoked i : rev_passes i = true -> Unrevoked i.
+Proof. apply rev_passes_iff. Qed.
 
 Lemma expiry_pass_not_expired i : expiry_passes i = true -> Not_expired i.
 Proof.
@@ -248,7 +255,7 @@ Theorem full_accept_strict i :
   f_integrity_ok i = true /\ Anchored i /\ Identity_matches i /\ Not_expired i /\ Timestamp_ok i /\ Unrevoked i
   /\ f_nonstring_crit i = false /\ other_crit (scenario_of i) = [].
 Proof.
-  intros L NP W [LEN W6] A. unfold verify_full in A. rewrite L in A.
+  intros L NP W W6 A. unfold verify_full in A. rewrite L in A.
   change (process_signature strict_level (scenario_of i)) with (verify_core strict_level (scenario_of i)) in A.
   rewrite (core_exact _ _ W) in A. apply negb_true_iff in A.
   unfold should_fail_impl, plugin_or_attribute_problem, enforced_failure in A.
@@ -269,7 +276,7 @@ Proof.
   apply negb_true_iff in ET.
   exact (conj I (conj (auth_pass_anchored i EA1) (conj (identity_pass_matches i EA2)
         (conj (expiry_pass_not_expired i EX) (conj (ts_pass_ok i W6 ET)
-        (conj (rev_pass_unrevoked i LEN ER) (conj NS OCn))))))).
+        (conj (rev_pass_unrevoked i ER) (conj NS OCn))))))).
 Qed.
 
 (* contrapositive, one fact at a time: a missing anchor / identity / revoked
@@ -326,7 +333,7 @@ Corollary full_log_failures_reported i :
   /\ (~ Timestamp_ok i -> In (mk_res TTimestamp Log true) (o_results (verify_full i)))
   /\ (~ Unrevoked i -> In (mk_res TRev Log true) (o_results (verify_full i))).
 Proof.
-  intros L NP W I NS MV OC [LEN W6].
+  intros L NP W I NS MV OC W6.
   destruct (full_log_reports i L NP W I NS MV OC) as [A R]. split; [exact A|]. rewrite R.
   unfold full_expected_audit. split; [|split; [|split]].
   - intros H. right. left. f_equal.
@@ -340,4 +347,114 @@ Proof.
     destruct (C06_Model.is_failed (ts_result i)) eqn:E; [reflexivity|]. exfalso. apply H. now apply ts_pass_ok.
   - intros H. right. right. right. right. left. f_equal.
     destruct (rev_passes i) eqn:E; cbn; [|reflexivity]. exfalso. apply H. now apply rev_pass_unrevoked.
+Qed.
+
+(* ================================================================== *)
+(* audit round: ANY (customised) level, no plugin demanded — and the   *)
+(* facts the sub-properties characterise in both directions             *)
+(* ================================================================== *)
+
+Lemma identity_matches_pass i : Identity_matches i -> C04_Model.is_pass (identity_class i) = true.
+Proof.
+  unfold Identity_matches, identity_class. intros [W | (leaf & rest & m & S & PM & INT & id & v & d & HIn & XV & PD & WI)].
+  - unfold C04_Model.verify_identities. now rewrite W.
+  - destruct (mem_str C04_Model.wildcard (f_identities i)) eqn:W.
+    + unfold C04_Model.verify_identities. now rewrite W.
+    + rewrite S. rewrite (proj2 (C04_Proofs.match_iff _ leaf rest W)); [reflexivity|].
+      exists m. split; [exact PM|]. split; [exact INT|]. exists id, v, d. tauto.
+Qed.
+
+Lemma identity_iff i : C04_Model.is_pass (identity_class i) = true <-> Identity_matches i.
+Proof. split; [apply identity_pass_matches | apply identity_matches_pass]. Qed.
+
+Lemma not_expired_passes i : Not_expired i -> expiry_passes i = true.
+Proof.
+  unfold Not_expired, expiry_passes, C06_Model.verify_expiry. intros [-> | (e & -> & H)]; [reflexivity|].
+  now apply Z.ltb_lt.
+Qed.
+
+Lemma expiry_iff i : expiry_passes i = true <-> Not_expired i.
+Proof. split; [apply expiry_pass_not_expired | apply not_expired_passes]. Qed.
+
+Lemma ts_ok_pass i : C06_Model.wf (in6 i) = true -> Timestamp_ok i -> C06_Model.is_failed (ts_result i) = false.
+Proof.
+  unfold ts_result, Timestamp_ok. intros W (SA & NT & TS).
+  assert (P : C06_Model.verify_authentic_timestamp (in6 i) = C06_Model.Passed); [|now rewrite P].
+  destruct (f_sa i) eqn:F.
+  - assert (S : C06_Model.i_scheme (in6 i) = C06_Model.SigningAuthority) by (cbn; unfold scheme6; now rewrite F).
+    exact (proj2 (C06_Proofs.sa_iff (in6 i) S) (SA eq_refl)).
+  - assert (S : C06_Model.i_scheme (in6 i) = C06_Model.X509) by (cbn; unfold scheme6; now rewrite F).
+    destruct (C06_Model.applies (in6 i)) eqn:A.
+    + apply C06_Proofs.applies_iff in A. exact (proj2 (C06_Proofs.x509_tsa (in6 i) W S A) (TS eq_refl A)).
+    + assert (NA : ~ C06_Model.Applies (in6 i)) by (intros H; apply C06_Proofs.applies_iff in H; congruence).
+      exact (proj2 (C06_Proofs.x509_no_tsa (in6 i) W S NA) (NT eq_refl NA)).
+Qed.
+
+Lemma ts_iff i : C06_Model.wf (in6 i) = true ->
+  (C06_Model.is_failed (ts_result i) = false <-> Timestamp_ok i).
+Proof. intros W. split; [now apply ts_pass_ok | now apply ts_ok_pass]. Qed.
+
+(* what the level of the statement enforces, as a declarative condition on the input *)
+Definition Enforced_ok (i : full_input) : Prop :=
+  (l_auth (f_level i) = Enforce -> auth_class i = C03_Model.APass /\ Identity_matches i)
+  /\ (l_exp (f_level i) = Enforce -> Not_expired i)
+  /\ (l_ts (f_level i) = Enforce -> Timestamp_ok i)
+  /\ (l_rev (f_level i) = Enforce -> Unrevoked i).
+
+Definition No_critical (i : full_input) : Prop :=
+  f_nonstring_crit i = false /\ other_crit (scenario_of i) = []
+  /\ (f_minver_attr i = AAbsent \/ f_minver_attr i = ANotCritical).
+
+Lemma enforced_false_iff a f : enforced a f = false <-> (a = Enforce -> f = false).
+Proof. destruct a, f; cbn; split; try congruence; try (intros H; now apply H); intros; discriminate. Qed.
+
+(* end to end for EVERY enforcement map: a signature that demands no plugin is accepted exactly when it
+   is intact, every validation the map ENFORCES holds in the declarative sense of its own property, and
+   it carries no critical extended attribute. Validations whose action is log or skip do not occur. *)
+Theorem full_accept_iff i : f_plugin_attr i = AAbsent -> contracts i ->
+  (accepted (verify_full i) = true <-> f_integrity_ok i = true /\ Enforced_ok i /\ No_critical i).
+Proof.
+  intros NP W6. unfold verify_full.
+  change (process_signature (f_level i) (scenario_of i)) with (verify_core (f_level i) (scenario_of i)).
+  rewrite exact_all, negb_true_iff.
+  unfold should_fail_impl, plugin_or_attribute_problem, enforced_failure, plugin_unusable, plugin_exec_problem,
+    nothing_processes, has_critical, plugin_demanded, asked, authenticity_failed, identity_failed, revocation_failed.
+  rewrite (no_plugin_caps i NP).
+  cbn [scenario_of s_integrity_ok s_nonstring_crit s_plugin_attr s_minver_attr s_auth s_identity_ok s_expired s_ts_ok s_rev_ok
+       caps_to_verify filter has_cap existsb nonempty].
+  rewrite NP. cbn [negb andb orb is_none]. rewrite !orb_false_iff, !andb_true_r, !negb_false_iff, !enforced_false_iff.
+  unfold Enforced_ok, No_critical.
+  rewrite <- identity_iff, <- expiry_iff, <- (ts_iff i W6), <- rev_passes_iff.
+  assert (AC : auth_class i = C03_Model.APass <-> (auth_code (auth_class i) =? 0)%N = true)
+    by (destruct (auth_class i); cbn; split; congruence).
+  assert (OC : nonempty (other_crit (scenario_of i)) = false <-> other_crit (scenario_of i) = [])
+    by (destruct (other_crit (scenario_of i)); cbn; split; congruence).
+  assert (MV : match f_minver_attr i with AAbsent | ANotCritical => false | _ => true end = false
+               <-> (f_minver_attr i = AAbsent \/ f_minver_attr i = ANotCritical))
+    by (destruct (f_minver_attr i); split; try tauto; try congruence; intros [H|H]; congruence).
+  rewrite AC, <- OC, <- MV. rewrite !orb_false_iff, !negb_false_iff, ?negb_true_iff.
+  tauto.
+Qed.
+
+(* the authenticity class "pass" implies the declarative anchoring (C03; the converse does not hold:
+   a load error of another listed store fails the whole stage) *)
+Lemma auth_class_pass_anchored i : auth_class i = C03_Model.APass -> Anchored i.
+Proof. intros H. apply auth_pass_anchored. now rewrite H. Qed.
+
+(* hence: whatever the map, an enforced validation that does not hold rejects *)
+Theorem full_reject_any_level i : f_plugin_attr i = AAbsent -> contracts i ->
+  (l_auth (f_level i) = Enforce /\ (~ Anchored i \/ ~ Identity_matches i))
+  \/ (l_exp (f_level i) = Enforce /\ ~ Not_expired i)
+  \/ (l_ts (f_level i) = Enforce /\ ~ Timestamp_ok i)
+  \/ (l_rev (f_level i) = Enforce /\ ~ Unrevoked i) ->
+  accepted (verify_full i) = false.
+Proof.
+  intros NP W6 H. destruct (accepted (verify_full i)) eqn:A; [|reflexivity]. exfalso.
+  apply (full_accept_iff i NP W6) in A. destruct A as (_ & (EA & EX & ET & ER) & _).
+  destruct H as [[L [H|H]] | [[L H] | [[L H] | [L H]]]].
+  - apply H. apply auth_class_pass_anchored. exact (proj1 (EA L)).
+  - apply H. exact (proj2 (EA L)).
+  - exact (H (EX L)).
+  - exact (H (ET L)).
+  - exact (H (ER L)).
 Qed.
